@@ -236,6 +236,16 @@ func runSynth(c *harness.Ctx) harness.Result {
 			bias = -(uint64(1+r.Intn(int(v0/pg))) * pg)
 		}
 	}
+	if l.typ == elf.ET_EXEC && r.Intn(4) == 0 {
+		// a fixed-address executable whose addresses were moved (address remapping by the profile's
+		// producer): by a few pages, so that runtime addresses fall into the link-time range of a
+		// neighbouring segment, or far away
+		bias = uint64(1+r.Intn(8)) * pg
+		if r.Intn(3) == 0 {
+			bias = uint64(1+r.Intn(40)) * 0x200000
+		}
+		c.Stat("relocated_exec", 1)
+	}
 	x := l.phs[l.xseg]
 	// loader: the executable segment is mapped page-wise
 	mstart := bias + (x.Vaddr &^ (pg - 1))
@@ -484,7 +494,7 @@ func runNM(c *harness.Ctx) harness.Result {
 	var syms []sym
 	a := uint64(0x400000 + r.Intn(0x100))
 	for i := 0; i < n; i++ {
-		s := sym{name: fmt.Sprintf("s%d", i), typ: []string{"T", "t", "T", "D", "b", "R", "W"}[r.Intn(7)], addr: a, size: uint64(r.Intn(0x40))}
+		s := sym{name: fmt.Sprintf("s%d", i), typ: []string{"T", "t", "T", "D", "b", "R", "W", "T", "t", "i", "u", "g", "S", "s", "G", "n", "p", "?", "A", "a", "C", "V", "v", "w", "N"}[r.Intn(25)], addr: a, size: uint64(r.Intn(0x40))}
 		if r.Intn(5) == 0 {
 			// a mangled template instantiation: the name alone is longer than common line buffers
 			s.name += "_" + strings.Repeat("x", []int{4000, 4090, 4096, 5000, 20000, 70000}[r.Intn(6)])
